@@ -81,6 +81,47 @@ theorem open_bad_signature_refused_fs (fs : Fs) (p : Nat) (b : Bytes) (hp : fs.g
     (h : b.take 16 ≠ SIG) : fsOpen fs p = .error .invalid := by
   simp [fsOpen, hp, open_bad_signature_refused b h]
 
+/-! ### long-lived objects: every context entry validates the file as it is NOW -/
+
+/-- whatever happened before — the object may have opened the same path successfully any number of
+    times, the file may have been replaced, deleted and recreated — an entry made while the path holds
+    bytes that do not start with the signature is refused -/
+theorem enter_checks_every_time (w : World) (ops : List WOp) (o p : Nat) (b : Bytes)
+    (ho : (w.run ops).pathOf o = some p) (hp : (w.run ops).fs.get p = some (.file b)) (h : b.take 16 ≠ SIG) :
+    ((w.run ops).step (.enter o)).2 = .invalid := by
+  simp [World.step, ho, open_bad_signature_refused_fs _ p b hp h]
+
+/-- … and while the path does not exist it is refused with FileNotFoundError -/
+theorem enter_missing_refused (w : World) (ops : List WOp) (o p : Nat)
+    (ho : (w.run ops).pathOf o = some p) (hp : (w.run ops).fs.get p = none) :
+    ((w.run ops).step (.enter o)).2 = .notFound := by
+  simp [World.step, ho, open_missing_refused _ p hp]
+
+/-- entering never changes any file, accepted or refused -/
+theorem enter_changes_nothing (w : World) (o : Nat) : (w.step (.enter o)).1 = w := by
+  simp only [World.step]; split <;> rfl
+
+/-- the outcome of an entry is a function of the current bytes at the object's path alone: two worlds
+    that agree there give the same answer, whatever their histories were -/
+theorem enter_depends_on_current_bytes_only (w₁ w₂ : World) (o₁ o₂ p₁ p₂ : Nat)
+    (h₁ : w₁.pathOf o₁ = some p₁) (h₂ : w₂.pathOf o₂ = some p₂) (h : w₁.fs.get p₁ = w₂.fs.get p₂) :
+    (w₁.step (.enter o₁)).2 = (w₂.step (.enter o₂)).2 := by
+  simp [World.step, h₁, h₂, fsOpen, h]
+
+/-- new/copy through the world never touch an existing target, whatever came before -/
+theorem world_new_exists_refused (w : World) (p : Nat) (now : Int) (n : Node) (h : w.fs.get p = some n) :
+    (w.step (.new p now)) = (w, .fileExists) := by
+  simp [World.step, new_exists_refused w.fs p now n h]
+
+theorem world_copy_exists_refused (w : World) (o src dst : Nat) (n : Node) (ho : w.pathOf o = some src)
+    (h : w.fs.get dst = some n) : (w.step (.copy o dst)) = (w, .fileExists) := by
+  simp [World.step, ho, copy_exists_refused w.fs src dst n h]
+
+-- non-vacuity: an object that opened a good file, whose file is then replaced by junk, is refused
+example : let w := (World.run { fs := [(1, .file (newFile 0))] } [.construct 9 1, .enter 9, .put 1 [1, 2, 3]])
+          (w.step (.enter 9)).2 = .invalid ∧ ((World.run { fs := [(1, .file (newFile 0))] } [.construct 9 1]).step (.enter 9)).2 = .ok := by
+  decide +kernel
+
 example : fsNew [(7, .dir)] 7 0 = ([(7, .dir)], .fileExists) := by decide
 example : (fsCopy [(1, .file [1, 2, 3])] 1 2).1.get 2 = some (.file [1, 2, 3]) := by decide
 
